@@ -618,3 +618,32 @@ func (m *Mem) OwnerKey(ctx context.Context, typ protocol.KeyType, bits int) (cry
 	}
 	return e.key, e.chain, nil
 }
+
+// SessionCrypter returns the tunnel keys of a TO2 session (for the harness'
+// man-in-the-middle, which plays an attacker but also needs the ground truth).
+func (m *Mem) SessionCrypter(token string) (*kex.SessionCrypter, bool) {
+	m.mu.Lock()
+	s, ok := m.sessions[token]
+	var suite kex.Suite
+	var b []byte
+	if ok {
+		suite, b = s.xSuite, s.xState
+	}
+	m.mu.Unlock()
+	if !ok || b == nil {
+		return nil, false
+	}
+	sess := suite.New(nil, m.XSessionBlankCipher)
+	if err := sess.(encoding.BinaryUnmarshaler).UnmarshalBinary(b); err != nil {
+		return nil, false
+	}
+	switch x := sess.(type) {
+	case *kex.ECDHSession:
+		return &x.SessionCrypter, len(x.SEK) > 0
+	case *kex.DHSession:
+		return &x.SessionCrypter, len(x.SEK) > 0
+	case *kex.OAEPSession:
+		return &x.SessionCrypter, len(x.SEK) > 0
+	}
+	return nil, false
+}
